@@ -219,6 +219,8 @@ def rowkey(r):
 
 
 def check(run, prefix="O4"):
+    from . import detectors as _DS
+    _DS.ob_structural_impls(run, prefix + ".8", ['consensus::vote', 'consensus::cert', 'types::', 'crypto::hash', 'crypto::merkle', 'crypto::aggsig', 'crypto::signature'], 'duplicate / conflict tests compare votes, block hashes and validator indices with the derived equality')
     prog = run.program("lib")
     P = prefix
 
@@ -349,6 +351,12 @@ def check(run, prefix="O4"):
                 "with feature test-utils the only extra caller is bench_replay_votes", "", {"callers": [fshort(x) for x in callers]})
 
     ob_recorded(run, P + ".5")
+    # the record the filters consult lives exactly as long as votes for the slot are admitted: per-slot state is discarded at the
+    # same watermark the window guard of Pool::add_vote uses (a slot whose state is dropped while its votes are still admitted
+    # counts a repeated vote again and misses a conflicting one)
+    from . import C08
+    C08.ob_discard_boundary(run, P + ".6")
+    C08.ob_admission(run, P + ".7")
     # ------------------------------------------------------------------ O4.4 index provenance
     o = run.ob(P + ".4", "the per-validator slot read by the filters and written by add_vote is the vote's own signer",
                "indexing by anything else attributes a vote to another validator", floor=3)
